@@ -80,6 +80,15 @@ fn finish(ctx: &Ctx, sig: &str, cfg: &Cfg, min: &str) -> Violation {
     let clean = parse(min, cur.level).get_errors().is_empty();
     if !cur.cfg.is_default() && same_failure(ctx.judge, sig, clean, min, ctx.dflt) {
         cur = ctx.cs.build(&Cfg::default());
+    } else if cur.cfg.devs.len() > 1 {
+        // a pair of deviations: the minimal text may need only one of them
+        for d in cur.cfg.devs.clone() {
+            let c1 = ctx.cs.build(&Cfg { devs: vec![d] });
+            if same_failure(ctx.judge, sig, clean, min, &c1) {
+                cur = c1;
+                break;
+            }
+        }
     }
     let detail = match (ctx.judge)(min, &cur) {
         Verdict::Bad { detail, .. } => detail,
@@ -167,6 +176,31 @@ fn resolve(ctx: &Ctx, threads: usize, all: &mut Stats) {
     ms.distinct_raw += distinct.len() as u64;
     ms.distinct_keys += keys.len() as u64;
     ms.wall_s += t_start.elapsed().as_secs_f64();
+}
+
+/// Maintenance aid: re-run the character-level minimisation on already minimal witnesses (one JSON
+/// fingerprint per line on stdin-like file) and print old → new fingerprints.
+pub fn renormalise(prop: &str, judge: Judge, file: &str) {
+    let cs = ConfigSpace::new();
+    let dflt = cs.build(&Cfg::default());
+    let ctx = Ctx { prop, cs: &cs, dflt: &dflt, judge };
+    let text = std::fs::read_to_string(file).unwrap_or_default();
+    for line in text.lines() {
+        let Some(rest) = line.strip_prefix(&format!("{prop}:")) else { continue };
+        let Some(i) = rest.find(":{") else { continue };
+        let (sig, w) = (&rest[..i], &rest[i + 1..]);
+        let Ok(w) = serde_json::from_str::<Value>(w) else { continue };
+        let (Some(t), Some(b)) = (w["text"].as_str(), cs.from_witness(&w["config"])) else { continue };
+        match judge(t, &b) {
+            Verdict::Bad { sig: s2, .. } if s2 == sig => {
+                let min = minimise_reduced(&ctx, sig, &b.cfg, t);
+                let v = finish(&ctx, sig, &b.cfg, &min);
+                let fp = v.fingerprint(prop);
+                println!("{}\t{}\t{}", if fp == line { "SAME" } else { "CHANGED" }, line, fp);
+            }
+            other => println!("GONE\t{}\t{:?}", line, bad_sig(&other)),
+        }
+    }
 }
 
 pub fn replay(cs: &ConfigSpace, w: &Value, judge: Judge) -> Option<Violation> {
@@ -391,15 +425,19 @@ pub fn explore(args: &Args, prop: &str, judge: Judge, oracle: &str) -> ! {
                 break;
             }
         }
-        k3_dev1 = run("Σf^3×dev1", pow(ns, 3), &word(3), &dev1, &mut all, &mut phases);
+        // Σf^3 × dev1 (3.4M programs × 72 configurations = 243M cases, ≈16,000 CPU-seconds) cannot complete within the
+        // thorough cap on 16 cores; it is only run when asked for explicitly (`--k3dev1 1`) and is not part of the tier.
+        if args.extra.contains_key("k3dev1") {
+            k3_dev1 = run("Σf^3×dev1", pow(ns, 3), &word(3), &dev1, &mut all, &mut phases);
+        }
     }
 
     let mut rep = Report::new(prop, "exploration");
     let targeted_ok = phases.iter().all(|p| p.complete);
     rep.exhaustive = targeted_ok;
     rep.rule = format!(
-        "programs = every sequence of ≤{} items of the statement/comment alphabet Σf (|Σf|={}: every statement form, table/call/string shapes, comments in every list position, every doc tag and type form, code fences, lines at width-1/width/width+1), every expression derivation of depth ≤2 over {} atoms/{} unary/{} binary operators, every string literal whose body is ≤2 pieces over (each quote character after 0..3 backslashes, \\z, \\n, \\x41, \\u{{41}}, a backslash pair, a letter) in each of 4 delimiters and 4 syntactic positions ({} programs), every paragraph ({}) and every file ({}) of the bundled std library, every word of the fragment alphabet Σ1^≤{} (|Σ1|={}, mostly invalid input){}; configurations = default + every single knob of LuaFormatConfig set to each of its other values ({} knobs, {} configurations{}); each (program, configuration) pair is evaluated once through emmylua_formatter::reformat_lua_code / check_text with the parser level luafmt would use (config.syntax.level). Oracle: {oracle}. Non-trivial = the formatter changed the text (or the case is a violation/undecided).",
-        if thorough { 3 } else { 2 },
+        "programs = every sequence of ≤2 items{} of the statement/comment alphabet Σf (|Σf|={}: every statement form, table/call/string shapes, comments in every list position, every doc tag and type form, code fences, lines at width-1/width/width+1), every expression derivation of depth ≤2 over {} atoms/{} unary/{} binary operators, every string literal whose body is ≤2 pieces over (each quote character after 0..3 backslashes, \\z, \\n, \\x41, \\u{{41}}, a backslash pair, a letter) in each of 4 delimiters and 4 syntactic positions ({} programs), every paragraph ({}) and every file ({}) of the bundled std library, every word of the fragment alphabet Σ1^≤{} (|Σ1|={}, mostly invalid input){}; configurations = default + every single knob of LuaFormatConfig set to each of its other values ({} knobs, {} configurations{}); each (program, configuration) pair is evaluated once through emmylua_formatter::reformat_lua_code / check_text with the parser level luafmt would use (config.syntax.level). Oracle: {oracle}. Non-trivial = the formatter changed the text (or the case is a violation/undecided).",
+        if thorough { " (and every sequence of 3 items under the default configuration)" } else { "" },
         sigma.len(),
         ATOMS.len(),
         UNOPS.len(),
